@@ -24,7 +24,7 @@ THREE = ["msubsup", "munderover"]
 ONE_INFERRED = ["msqrt", "menclose", "mstyle", "mpadded", "mphantom", "merror", "mtd"]
 
 EMPTY_KINDS = ["mrow0", "none", "mi0", "mn0", "mo0", "mtext0", "mtext_sp", "mtext_nbsp", "mspace", "mphantom", "mstyle0", "mpadded0", "mrow_mrow0",
-               "mrow_sp", "mstyle_sp", "mo_sp", "mphantom0", "semantics_empty"]
+               "mrow_sp", "mstyle_sp", "mo_sp", "mphantom0", "semantics_empty", "strut", "strut0", "mspace0", "mspace_neg"]
 
 _DICT_OPS = None
 
@@ -57,6 +57,11 @@ def empty_like(kind):
         "mstyle_sp": lambda: N("mstyle", [N("mspace", width="0.2em")]),
         "mo_sp": lambda: mo(" "),
         "semantics_empty": lambda: N("semantics", [mrow(), N("annotation", [], encoding="TeX")]),
+        # struts (TeX \\strut, \\rule{0pt}{..}): no width, only height/depth; bare and negative spaces
+        "strut": lambda: N("mspace", height="1em", depth="0.5em"),
+        "strut0": lambda: N("mspace", width="0", height="2ex"),
+        "mspace0": lambda: N("mspace"),
+        "mspace_neg": lambda: N("mspace", width="-0.2em"),
     }[kind]()
 
 
@@ -125,6 +130,28 @@ class Degenerate:
         self.count += len(kids)
         return kids
 
+    def fenced_then_script(self, depth):
+        """a fenced group written as sibling tokens, directly followed by a script with an empty base (TeX '(x+1){}^2', '[a,b]{}_0'), last in
+        its row or followed by a 2-D element: the script takes the whole group as its base"""
+        r = self.rng
+        o, c = r.choice([("(", ")"), ("[", "]"), ("{", "}"), ("|", "|"), ("⟨", "⟩")])
+        inner = [self.token() if r.random() < 0.5 else r.choice([mi("x"), mn("1"), mi("a")])]
+        for _ in range(r.randint(0, 2)):
+            inner += [mo(r.choice(["+", ",", "-", "="])), r.choice([mi("y"), mn("2"), mi("b")])]
+        tag = r.choice(["msup", "msub", "msubsup"])
+        base = empty_like(r.choice(["mrow0", "mi0", "mtext0", "mphantom", "mspace", "none", "mrow_mrow0"]))
+        scripts = [r.choice([mn("2"), mi("n"), mn("0")]) for _ in range(2 if tag == "msubsup" else 1)]
+        kids = [mo(o)] + inner + [mo(c), N(tag, [base] + scripts)]
+        if r.random() < 0.3:
+            kids = [r.choice([mi("y"), mi("f")]), mo("=")] + kids
+        k = r.random()
+        if k < 0.3:
+            kids.append(N(r.choice(["mfrac", "msqrt"]), [mi("u"), mn("3")][:2]))
+        elif k < 0.45:
+            kids += [mo("+"), mn("1")]
+        self.count += len(kids)
+        return kids
+
     def html_token(self):
         r = self.rng
         kind = r.choice(["span", "glyph", "nested", "br"])
@@ -157,7 +184,7 @@ class Degenerate:
         k = r.random()
         d = depth + 1
         if k < 0.05:
-            return mrow(*self.special_run(d))
+            return mrow(*(self.special_run(d) if r.random() < 0.75 else self.fenced_then_script(d)))
         if k < 0.25:
             n = r.choice([0, 1, 1, 2, 3, 3, 4, 5])
             e = mrow(*[self.child(d) for _ in range(n)])
@@ -266,7 +293,8 @@ class Degenerate:
         self.count = 0
         self.next_id = 0
         n = r.choice([1, 1, 1, 2, 3, 4])
-        root = math(*(self.special_run(0) if r.random() < 0.04 else [self.node(0) for _ in range(n)]))
+        k0 = r.random()
+        root = math(*(self.special_run(0) if k0 < 0.04 else self.fenced_then_script(0) if k0 < 0.06 else [self.node(0) for _ in range(n)]))
         if r.random() < 0.1:
             root.attrs["display"] = "block"
         self.assign_ids(root)
